@@ -106,7 +106,12 @@ def asis_roots(op, arg, recipes):  # noqa: C901, PLR0911, PLR0912
             return [arg.get("anyf"), arg.get("objf"), *(lst if isinstance(lst, list) else [])]
         return [arg.anyf, arg.objf, *arg.lst]
     collect = "nm_extra_collect" in recipes
-    if t == "WithExtra2":
+    if t == "WithExtra4":
+        # e1, e2 are typed Any: whatever ends up there is passed as is
+        if load:
+            return [v for k, v in arg.items() if k != "a"] if isinstance(arg, dict) else []
+        return [arg.e1, arg.e2]
+    if t in ("WithExtra2", "WithExtra3"):
         if load:
             if not isinstance(arg, dict):
                 return []
